@@ -56,7 +56,7 @@ class Harness(object):
         self.errors = {}
         self.framing = clients.FRAMING[kind]
         self.line = clients.Line(self.clock, self.peer)
-        self.split_reply = True
+        self.split_reply = kind != 'udp'          # a datagram arrives whole
         self.patch = clients.Patched(self.clock, self.line)
         self.patch.__enter__()
         kw = dict(retries=0, timeout=3)
@@ -72,6 +72,19 @@ class Harness(object):
                 if t is not None and self_.owner is t and self_.depth == 1:
                     me_.log.append((t.tid, 'rel'))          # the lock is let go (the last time before execute() returns ends the transaction)
                 return sched.SLock.release(self_)
+
+            def acquire(self_, blocking=True, timeout=-1):
+                # a wait with a deadline gives up once the (virtual) clock has passed it
+                t = s.me()
+                if t is None or not blocking or timeout is None or timeout < 0 or self_.owner is t:
+                    return sched.SLock.acquire(self_, blocking, timeout)
+                t0 = me_.clock.t
+                s.point(self_.name + '.acquire', wait_for=lambda: self_.owner is None or self_.owner is t or me_.clock.t - t0 >= timeout)
+                if self_.owner is None or self_.owner is t:
+                    self_.owner = t
+                    self_.depth += 1
+                    return True
+                return False
 
             def __exit__(self_, *a):
                 self_.release()
@@ -95,7 +108,7 @@ class Harness(object):
             if sock is None or getattr(sock, '_c15', False):
                 return
             sock._c15 = True
-            for name in ('send', 'recv', 'write', 'read'):
+            for name in ('send', 'recv', 'write', 'read', 'sendto', 'recvfrom'):
                 if hasattr(sock, name):
                     orig = getattr(sock, name)
 
@@ -131,7 +144,11 @@ class Harness(object):
             return                                   # a broadcast is never answered
         r = datamodel.execute(self.store, m)
         frame = adu.build(self.framing, p['unit'], pdu.encode(r), tid=p['tid'] or 0)
-        if self.split_reply and len(frame) > 6:
+        if self.fault and self.fault[0] == 'slow' and len(frame) > 6:
+            k = {'tcp': 8, 'rtu': 2, 'ascii': 5, 'binary': 3}[self.framing]      # what the client reads first
+            line.push(frame[:k], 2.2)                 # a slow device: each piece arrives within the read timeout (3 s),
+            line.push(frame[k:], 4.4)                 # the whole transaction takes longer than that
+        elif self.split_reply and len(frame) > 6:
             line.push(frame[:5])                      # reply delivered in two pieces (latency)
             line.push(frame[5:])
         else:
@@ -199,7 +216,7 @@ def judge(acc, s, h, name, bound):
             if owner == tid:
                 owner = None
             continue
-        if op in ('send', 'write'):
+        if op in ('send', 'write', 'sendto'):
             if owner is not None and owner != tid:
                 problems.append(('overlap', 'thread %d sends while the transaction of thread %d is between send and end of receive' % (tid, owner)))
             owner = tid
@@ -220,7 +237,7 @@ def judge(acc, s, h, name, bound):
                 problems.append(('wrong-reply', 'thread %d asked %s and got %r (expected %s)' % (t, pdu.encode(m).hex(), d[:3], want.hex())))
         if s.outcome == 'ok' and len(res) != len(h.requests[t]):
             problems.append(('lost-call', 'thread %d finished %d of %d calls' % (t, len(res), len(h.requests[t]))))
-    acc.add('wire_orders', (name, tuple(tid for tid, op in h.log if op in ('send', 'write'))))
+    acc.add('wire_orders', (name, tuple(tid for tid, op in h.log if op in ('send', 'write', 'sendto'))))
     seen = set()
     for what, msg in problems:
         if what in seen:
@@ -230,9 +247,10 @@ def judge(acc, s, h, name, bound):
 
 
 CONFIGS = {
-    'quick': [('tcp', (2, 1), False), ('tcp', (2, 2), False), ('tcp', (3, 1), False),
+    'quick': [('tcp', (2, 1), False), ('tcp', (2, 2), False), ('tcp', (3, 1), False), ('udp', (2, 1), False), ('udp', (2, 2), False),
               ('serial-rtu', (2, 1), False), ('serial-rtu', (2, 2), False), ('serial-ascii', (2, 1), True)],
-    'thorough': [('tcp', (2, 1), False), ('tcp', (2, 2), False), ('tcp', (3, 1), False), ('tcp', (2, 3), False), ('tcp', (3, 2), False), ('tcp', (4, 1), False),
+    'thorough': [('udp', (2, 1), False), ('udp', (2, 2), False), ('udp', (3, 1), False),
+                 ('tcp', (2, 1), False), ('tcp', (2, 2), False), ('tcp', (3, 1), False), ('tcp', (2, 3), False), ('tcp', (3, 2), False), ('tcp', (4, 1), False),
                  ('serial-rtu', (2, 1), False), ('serial-rtu', (2, 2), False), ('serial-rtu', (3, 1), False), ('serial-rtu', (2, 3), False),
                  ('serial-ascii', (2, 1), True), ('serial-ascii', (2, 2), True), ('serial-ascii', (3, 1), True)],
 }
@@ -247,6 +265,9 @@ def parse_name(name):
     if '+raise' in head:
         head = head.replace('+raise', '')
         fault = ('raise-first', 0)
+    if '+slow' in head:
+        head = head.replace('+slow', '')
+        fault = ('slow', 0)
     return head.replace('+broadcast', ''), tuple(int(x) for x in sh.split('x')), '+broadcast' in head, fault
 
 
@@ -254,7 +275,7 @@ def shard(args):
     kind, shape, broadcast, bound = args[:4]
     fault = args[4] if len(args) > 4 else None
     acc = Acc()
-    name = '%s%s%s:%dx%d' % (kind, '+broadcast' if broadcast else '', ('+drop%d' % fault[1] if fault[0] == 'drop-first' else '+raise') if fault else '', shape[0], shape[1])
+    name = '%s%s%s:%dx%d' % (kind, '+broadcast' if broadcast else '', ('+drop%d' % fault[1] if fault[0] == 'drop-first' else '+' + fault[0].split('-')[0]) if fault else '', shape[0], shape[1])
     hs = []
 
     def make(s):
@@ -284,6 +305,8 @@ def run(tier, seed):
     # the other callers are queued meanwhile
     for k in ('tcp', 'serial-rtu'):
         shards.append((k, (2, 2), False, 2, ('raise-first', 0)))
+        shards.append((k, (2, 1), False, 2, ('slow', 0)))
+        shards.append((k, (3, 1), False, 2, ('slow', 0)))
         for retries in (0, 1):
             shards.append((k, (2, 2), False, 2, ('drop-first', retries)))
             if tier == 'thorough':
